@@ -38,6 +38,23 @@ class ExprInModel(ExprModel):
         self.lhs = lhs
         self.rhs = rhs
         
+    def val(self):
+        """Value of the membership test on the current values (used
+        outside the solver, e.g. by a coverage 'iff' condition)"""
+        from vsc.model.value_bool import ValueBool
+        lhs = int(self.lhs.val())
+        for r in self.rhs.rl:
+            if isinstance(r, ExprRangeModel):
+                if lhs >= int(r.lhs.val()) and lhs <= int(r.rhs.val()):
+                    return ValueBool(True)
+            elif isinstance(r, ExprFieldRefModel) and isinstance(r.fm, FieldArrayModel):
+                for i in range(int(r.fm.size.get_val())):
+                    if lhs == int(r.fm.field_l[i].get_val()):
+                        return ValueBool(True)
+            elif lhs == int(r.val()):
+                return ValueBool(True)
+        return ValueBool(False)
+    
     def build(self, btor, ctx_width=-1):
         t = None
         expr = None
